@@ -30,4 +30,34 @@ def handleChain (j : Json) : Except String Json := do
     ("error", match err with | some e => .str (IO.Graph.errToString e) | none => .null),
     ("out", out)]
 
+def etypeOf : String → EType
+  | "rename" => .rename | "has_column" => .hasColumn | "has_alias" => .hasAlias | _ => .lineage
+
+/-- `{"cmd":"chainpaths","nodes":[<node JSON as in IO/Graph>…],"edges":[[i,j,"lineage"|"has_column"|…]…],
+      "excl_end":true,"excl_sub":false}` — the graph of an IMPLEMENTATION result, nodes in `g.nodes` order, edges by node index in
+    `g.edges` order → `Paths.columnLineage` of that graph as lists of node indices, its roots and leaves, and whether two of the
+    given nodes have the same model key (then the model cannot represent the graph faithfully).  Ties `Model/Paths.lean` to
+    `get_column_lineage` + `networkx.all_simple_paths` independently of the extractors. -/
+def handleChainPaths (j : Json) : Except String Json := do
+  let nodesJ ← j.getObjValAs? (Array Json) "nodes"
+  let nodes ← nodesJ.toList.mapM IO.Graph.nodeOfJson
+  let edgesJ ← j.getObjValAs? (Array Json) "edges"
+  let edges ← edgesJ.toList.mapM (fun e => match e with
+    | .arr #[a, b, .str t] => do
+      let a ← a.getNat?; let b ← b.getNat?
+      match nodes[a]?, nodes[b]? with
+      | some u, some v => pure (u, v, etypeOf t)
+      | _, _ => throw "edge index out of range"
+    | _ => throw s!"bad edge {e.compress}")
+  let exclEnd := (j.getObjValAs? Bool "excl_end").toOption.getD true
+  let exclSub := (j.getObjValAs? Bool "excl_sub").toOption.getD false
+  let g0 : LGraph := nodes.foldl (fun g n => g.addNode n) Graph.empty
+  let g : LGraph := edges.foldl (fun g e => g.addEdge e.1 e.2.1 e.2.2) g0
+  let idx : Node → Nat := fun n => nodes.idxOf n
+  let jn (l : List Node) : Json := .arr (l.map (fun n => Json.num ⟨idx n, 0⟩)).toArray
+  pure <| Json.mkObj [
+    ("paths", .arr ((Paths.columnLineage g exclEnd exclSub).map jn).toArray),
+    ("dup", .bool (nodes.eraseDups.length != nodes.length)),
+    ("n_nodes", .num ⟨g.nodes.length, 0⟩), ("n_edges", .num ⟨g.edges.length, 0⟩)]
+
 end SqlLineage.IO.Chain
